@@ -659,7 +659,9 @@ def gen_case(seed, shard, i):
                           float(rng.uniform(0, 200))]))
     if mode in ("high", "low") and p == 0.0:
         p = 12.5
-    sc = float(rng.choice([2.0, 0.5, -1.0, 3.0, 1e-5, 1e7, -0.3, float(rng.uniform(0.1, 10))]))
+    # incl. scales that bring the truth down to ppb/ppt magnitudes (<= 1e-8) and up to 1e12
+    sc = float(rng.choice([2.0, 0.5, -1.0, 3.0, 1e-5, 1e7, -0.3, float(rng.uniform(0.1, 10)),
+                           1e-9, 1e-12, -1e-15, 1e12]))
     rel = {"kind": kind, "y_test": truth, "p": p, "shapes": shapes, "kcols": kcols,
            "mode": mode, "scale": sc, "s": int(rng.integers(0, 2 ** 31)),
            "seed": seed, "shard": shard, "i": i}
